@@ -403,7 +403,8 @@ def splice(take, mode, mutant=None):
                 body = inner[k + 1:].strip()
                 if not body.startswith("{"):
                     body = "{ " + body + " }"
-                inner = hdr + " " + body
+                # a header that ends in a `// [label]` comment gets the body on the next line
+                inner = hdr + ("\n" if "//" in hdr.rstrip().split("\n")[-1] else " ") + body
             text = text[:i] + inner + text[j + 1:]
         if "__verif_" in text:
             raise Undecided(f"{take.key}: unreplaced placeholder: " + re.search(r"__verif_\w+", text).group(0))
